@@ -13,3 +13,5 @@ TECHNIQUE = "contract-based deductive verification: VCs generated from the ast o
 UNITS = [VIO.unit_validate_row()]
 UNITS += [VIO.unit_reader_rows(), ER.unit_location_copy_and_str()]
 UNITS += [VIO.unit_raw_rows().also("C04"), VIO.unit_c04_sweep()]
+from contracts import rowio_delim as RD, rowio_fixed as FX
+UNITS += [RD.unit_delimited_rows().also("C04"), FX.unit_fixed_rows().also("C04")]
